@@ -96,6 +96,11 @@ def nibabel_image_to_info(img,
 
     input_dtype, is_rgb = neuroglancer_scripts.data_types.get_dtype(
                             input_dtype)
+    if input_max is not None:
+        # the channel layout does not depend on the value scaling
+        zero_index = tuple(0 for _ in shape)
+        _, is_rgb = neuroglancer_scripts.data_types.get_dtype(
+            proxy[zero_index].dtype)
     if is_rgb:
         shape = shape + (3,)
 
